@@ -978,7 +978,8 @@ class BaseOdeModel(object):
 
                 trans=Transition(origin=transition.origin,
                                  destination=transition.destination,
-                                 transition_type="T")
+                                 transition_type="T",
+                                 magnitude=transition._magnitude)
 
                 event=Event(rate=transition.equation,
                             transition_list=[trans])
@@ -1028,7 +1029,8 @@ class BaseOdeModel(object):
         if isinstance(birth_death, Transition):
             t = birth_death.transition_type
             if t is TransitionType.B:
-                trans_birth=Transition(destination=birth_death.destination, transition_type="B")
+                trans_birth=Transition(destination=birth_death.destination, transition_type="B",
+                                       magnitude=birth_death._magnitude)
 
                 birth_event=Event(rate=birth_death.equation,
                                   transition_list=[trans_birth])
@@ -1037,7 +1039,8 @@ class BaseOdeModel(object):
                 self._birthDeathList.append(birth_event)
                 self._hasNewTransition.trip()            
             elif t is TransitionType.D:
-                trans_death=Transition(origin=birth_death.origin, transition_type="D")
+                trans_death=Transition(origin=birth_death.origin, transition_type="D",
+                                       magnitude=birth_death._magnitude)
 
                 death_event=Event(rate=birth_death.equation,
                                   transition_list=[trans_death])
